@@ -139,13 +139,16 @@ func jlLibTemplates(cols []jlCol) (jsonline.Template, jsonline.Template) {
 	return ti, to
 }
 
+var jlExtraEnv []string
+var jlForcedYamlRun string
+
 func runJl(dir string, args []string, stdin []byte) string {
 	bin := os.Getenv("VERIF_JL")
 	ctx, cancel := context.WithTimeout(context.Background(), 60*time.Second) // a command that hangs is stopped (exit -1)
 	defer cancel()
 	cmd := exec.CommandContext(ctx, bin, args...)
 	cmd.Dir = dir
-	cmd.Env = append(os.Environ(), "TZ=UTC", "HOME="+dir)
+	cmd.Env = append(append(os.Environ(), "TZ=UTC", "HOME="+dir), jlExtraEnv...)
 	cmd.Stdin = bytes.NewReader(stdin)
 	var out, errb bytes.Buffer
 	cmd.Stdout, cmd.Stderr = &out, &errb
@@ -246,9 +249,49 @@ func genC19(cw *caseWriter, seed uint64, tier string) {
 		}
 		stdin := in.Bytes()
 		os.WriteFile(filepath.Join(withYml, "row.yml"), []byte("columns:\n"+yamlOf(cols, "  ")), 0o644)
-		yamlRun := runJl(withYml, nil, stdin)
-		inlineRun := runJl(noYml, []string{"-t", inlineOf(cols)}, stdin)
-		overRun := runJl(otherYml, []string{"-t", inlineOf(cols)}, stdin)
+		// options that concern the logs only (level 1-5 so that line failures stay countable, caller information,
+		// JSON logs, colours), given as flags, through the environment (JL_VERBOSITY …) or a config.yaml next to the
+		// data; the definition file under another name given with -f: none of them changes what is written to
+		// standard output, what is accepted, or the exit status
+		var extra []string
+		var envExtra []string
+		os.Remove(filepath.Join(withYml, "config.yaml"))
+		os.Remove(filepath.Join(noYml, "config.yaml"))
+		switch r.intn(10) {
+		case 0:
+			extra = []string{"-v", "5"}
+		case 1:
+			extra = []string{"-v", "trace", "--debug"}
+		case 2:
+			extra = []string{"--log-json"}
+		case 3:
+			extra = []string{"--color", "yes", "-v", "2"}
+		case 4:
+			envExtra = []string{"JL_VERBOSITY=trace", "JL_LOG_JSON=true"}
+		case 5:
+			os.WriteFile(filepath.Join(withYml, "config.yaml"), []byte("verbosity: \"5\"\ndebug: true\n"), 0o644)
+			os.WriteFile(filepath.Join(noYml, "config.yaml"), []byte("verbosity: \"4\"\nlog_json: true\n"), 0o644)
+		}
+		jlExtraEnv = envExtra
+		yamlArgs := append([]string{}, extra...)
+		if r.chance(1, 4) {
+			// the same definition under another name, given with -f
+			os.MkdirAll(filepath.Join(noYml, "defs"), 0o755)
+			os.WriteFile(filepath.Join(noYml, "defs", "other.yml"), []byte("columns:\n"+yamlOf(cols, "  ")), 0o644)
+			yamlRunF := runJl(noYml, append([]string{"-f", "defs/other.yml"}, extra...), stdin)
+			if ref := runJl(withYml, yamlArgs, stdin); ref != yamlRunF {
+				// reported through the yaml run itself: what -f gave, so that the comparison with the other routes fails
+				os.WriteFile(filepath.Join(withYml, "row.yml"), []byte("columns:\n"+yamlOf(cols, "  ")), 0o644)
+				jlForcedYamlRun = yamlRunF
+			}
+		}
+		yamlRun := runJl(withYml, yamlArgs, stdin)
+		if jlForcedYamlRun != "" {
+			yamlRun, jlForcedYamlRun = jlForcedYamlRun, ""
+		}
+		inlineRun := runJl(noYml, append([]string{"-t", inlineOf(cols)}, extra...), stdin)
+		overRun := runJl(otherYml, append([]string{"-t", inlineOf(cols)}, extra...), stdin)
+		jlExtraEnv = nil
 		// library
 		ti, to := jlLibTemplates(cols)
 		var out bytes.Buffer
